@@ -76,7 +76,7 @@ Definition literal_tok (t : ctok) : bool :=
 Inductive pos :=
 | PWhereEq | PWhereIn | PWhereBetween | PWhereLike | PSelectFunc | PWhereFunc | PSelectCase | PSelectVal | PSelectAlias
 | PInsert | PSet | POnDup | POnConflict | PDefault | PHaving | PJoinOn | PSubWhere | PFromSub | PTupleEq | PArrayElem
-| PArith | PCaseWhen | PCaseElse | PWithOne | PWithTwo | PArithSub | PDeleteWhere | PReplaceRow | PInsertSelect.
+| PArith | PCaseWhen | PCaseElse | PWithOne | PWithTwo | PArithSub | PDeleteWhere | PReplaceRow | PInsertSelect | PUpdateWhere.
 
 Definition fa : term := TField "a" None None.
 Definition tbl (n : string) : option tref := Some {| tname := n; tschema := []; talias := None |}.
@@ -100,7 +100,7 @@ Definition plug (p : pos) (v : term) : term :=
   | PArithSub => TArith OSub fa v None                                           (* Field("a") - v *)
   | PCaseWhen => TCase (WCons (TBasic CEq fa v None) (TValI 1 None) WNil) (OSome (TValI 2 None)) None   (* Case().when(a==v, 1).else_(2) *)
   | PCaseElse => TCase (WCons (TBasic CEq fa (TValI 1 None) None) (TValI 0 None) WNil) (OSome v) None   (* Case().when(a==1, 0).else_(v) *)
-  | PWithOne | PWithTwo => TBasic CEq (TField "b" None None) v None             (* Field("b") == v in the body of a CTE *)
+  | PWithOne | PWithTwo | PUpdateWhere => TBasic CEq (TField "b" None None) v None             (* Field("b") == v in the body of a CTE *)
   end.
 
 Definition pos_wrap (p : pos) : wrapping :=
@@ -123,7 +123,7 @@ Definition with_flags (c : ctx) (wa' wn' subq' : bool) : ctx :=
 Definition pos_ctx (p : pos) (k : qclass) : ctx :=
   let c := class_ctx k in
   match p with
-  | PWhereEq | PWhereIn | PWhereBetween | PWhereLike | PWhereFunc | PTupleEq | PSubWhere | PFromSub | PWithOne | PWithTwo | PInsert | PReplaceRow | PDeleteWhere | PInsertSelect =>
+  | PWhereEq | PWhereIn | PWhereBetween | PWhereLike | PWhereFunc | PTupleEq | PSubWhere | PFromSub | PWithOne | PWithTwo | PInsert | PReplaceRow | PDeleteWhere | PInsertSelect | PUpdateWhere =>
       with_flags c false false true
   | PSelectFunc | PSelectCase | PSelectVal | PSelectAlias | PArrayElem | PArith | PArithSub | PCaseWhen | PCaseElse =>
       with_flags c true false true
